@@ -81,6 +81,15 @@ Theorem removal_during_sweep : forall hashf owns rf g p f,
 Proof. exact RegistryProofs.removal_during_sweep_thm. Qed.
 Print Assumptions removal_during_sweep.
 
+(* GC_Mark_Item on a registered aligned address: the [minptr, maxptr] pre-filter lets it
+   through, the probe loop reaches it, it ends up marked (interface to C01) *)
+Theorem mark_item_marks_registered : forall hashf g p s,
+  InvM hashf g -> Reg g p s -> (p mod 8 = 0)%N ->
+  exists g', mark_item hashf g p = Some (Some g') /\ PW (slots g) (slots g') /\
+    exists e', Holds gentry (slots g') e' /\ ptr e' = p /\ root e' = s /\ marked e' = true.
+Proof. exact RegistryProofs.mark_item_marks_thm. Qed.
+Print Assumptions mark_item_marks_registered.
+
 (* the oracle of the correspondence check is the specification *)
 Theorem led_list_spec : forall l q s, In (q, s) (led_list l) <-> led l q s.
 Proof. exact RegistryProofs.led_list_spec_thm. Qed.
